@@ -34,4 +34,6 @@ CONSTANTS
   CryptProbeDirectOnly = TRUE
   ParmRefLayouts = {}
   InlinedAsIs = FALSE
+  MaxChain = 10
+  BoundBeforeRead = FALSE
 INVARIANTS Shape
